@@ -29,12 +29,14 @@ def private_interp(ctx):
             if not os.path.exists(mine):
                 shutil.copy2(exe, mine + ".tmp%d" % os.getpid())
                 os.rename(mine + ".tmp%d" % os.getpid(), mine)
-            for f in os.listdir(os.path.dirname(mine)):
-                if f != os.path.basename(mine):
-                    try:
-                        os.remove(os.path.join(os.path.dirname(mine), f))
-                    except OSError:
-                        pass
+            os.utime(mine, None)
+            d = os.path.dirname(mine)
+            olds = sorted((os.path.getmtime(os.path.join(d, f)), f) for f in os.listdir(d))
+            for _, f in olds[:-3]:                      # keep the three most recent (concurrent runs of this check)
+                try:
+                    os.remove(os.path.join(d, f))
+                except OSError:
+                    pass
             return mine
         except (OSError, IOError) as e:
             last = e
@@ -65,6 +67,9 @@ def safe_run_case(exe, text, wd, name):
         res = {"rc": -1, "out": "trace truncated (crash)", "events": evs, "verdict": None, "trace_path": tp,
                "case_path": os.path.join(wd, name + ".case"), "trace_text": "\n".join(good)}
     res["stderr"] = res["out"]
+    # a crash of the library under test can cut the last line short: keep well-formed events only
+    need = {"C": 1, "R": 2, "P": 3, "S": 1, "E": 1}
+    res["events"] = [e for e in res["events"] if len(e.words) >= need.get(e.kind, 1)]
     return res
 
 
@@ -136,14 +141,13 @@ def oracle(case, res):
             expect[(int(w[2]), int(w[3]))] = int(w[4])
     onces = [n for n, (k, _) in objs.items() if k == "once"]
     stats = {"calls": 0, "later_calls": 0, "waited_calls": 0, "inits": 0}
-    if res["verdict"] is None:
-        return "run produced no verdict (crash?) rc=%s: %s" % (res["rc"], res.get("stderr", "")[-200:]), stats
     begun = {o: [] for o in onces}       # threads that began the init routine
     ended = {o: [] for o in onces}
     done = {o: False for o in onces}     # the completing store has been executed
     ncalls = {o: 0 for o in onces}
     stack, topidx = {}, {}
     open_once = {}                       # (o, T) -> {"later": bool, "yields": n, "cas": n}
+    weak = None
     for e in res["events"]:
         T = e.actor
         if e.kind == "C":
@@ -195,8 +199,8 @@ def oracle(case, res):
                     if len(begun[o]) > 1:
                         return "the init routine of %s is executed a second time (by t%d; first by t%d)" % (
                             o, T, begun[o][0]), stats
-                    if done[o]:
-                        return "the init routine of %s starts after the control was marked completed" % o, stats
+                    if done[o] and not weak:
+                        weak = "the init routine of %s starts after the control was marked completed" % o
                 else:
                     ended[o].append(T)
                     if begun[o] != [T]:
@@ -213,9 +217,14 @@ def oracle(case, res):
                 if c:
                     c["cas"] += 1
             elif e.words[0] == "once.done":
-                if len(ended[o]) != 1:
-                    return "%s is marked completed before its init routine has completed (%s)" % (o, e.raw), stats
+                if len(ended[o]) != 1 and not weak:
+                    # reported only if no caller is seen returning early later in this run
+                    weak = "%s is marked completed before its init routine has completed (%s)" % (o, e.raw)
                 done[o] = True
+    if weak:
+        return weak, stats
+    if res["verdict"] is None:
+        return "run produced no verdict (the library crashed?) rc=%s: %s" % (res["rc"], res.get("stderr", "")[-200:]), stats
     if not res["verdict"].startswith("DONE"):
         return "verdict %s (a caller never returned)" % res["verdict"], stats
     for o in onces:
@@ -317,7 +326,7 @@ def gen_program(r, workers, ncallers=None, kinds=None):
 
 
 def text_of(p, workers, seed, pswitch):
-    c = trace.case_text(workers, seed, p["objs"], p["threads"], scripts=p["scripts"], pswitch=pswitch, maxsteps=30000)
+    c = trace.case_text(workers, seed, p["objs"], p["threads"], scripts=p["scripts"], pswitch=pswitch, maxsteps=20000)
     return c + "".join("# expect %d %d %d\n" % e for e in p["expect"])
 
 
@@ -333,7 +342,7 @@ def gen_cases(ctx, n):
     return cases
 
 
-def run_until_failure(ctx, exe, drv, cases, chunk=40):
+def run_until_failure(ctx, exe, drv, cases, chunk=25):
     """run_cases in chunks; stop after the first chunk in which the property oracle fails (a broken library
     can make every further run slow)"""
     out = []
@@ -423,7 +432,7 @@ def summarize(results):
 def run(ctx):
     broken, log = ctx.prove("Properties_C14.v", "Properties_C14")
     exe, drv = build(ctx)
-    n = 150 if not ctx.thorough else 3000
+    n = 110 if not ctx.thorough else 2500
     cases = load_corpus() + gen_cases(ctx, n)
     results = run_until_failure(ctx, exe, drv, cases)
     hist, spins, dist, verd, st, callers = summarize(results)
